@@ -87,6 +87,10 @@ func TestVerif_C17(t *testing.T) {
 	for ep := 0; ep < evid.Pick(12, 300) && rec.Violations() < 30; ep++ {
 		vfC17Lifecycle(rec, ep)
 	}
+	for ep := 0; ep < evid.Pick(4, 100) && rec.Violations() < 30; ep++ {
+		vfC17Refused(rec, ep)
+		vfC17CloseInFlight(rec, ep)
+	}
 	// every server of this run has been stopped: no accept / connection / cleanup goroutine may remain
 	left := vfAbsnfsGoroutines("acceptLoop", "handleConnectionLoop", "idleConnectionCleanupLoop")
 	if len(left) > 0 {
@@ -379,4 +383,166 @@ func vfC17Lifecycle(rec *evid.Rec, ep int) {
 	_ = rng
 	rec.Eval(len(seq))
 	rec.Distinct("lifecycle|" + strings.Join(seq, "-"))
+}
+
+// vfC17Refused: connections turned away by the address filter are not served and must
+// not stay counted; allowed clients still get every slot.
+func vfC17Refused(rec *evid.Rec, ep int) {
+	max := 2 + ep%3
+	fs := refs.New()
+	srv, err := vfNewSrv(fs, ExportOptions{MaxConnections: max, IdleTimeout: time.Hour, AllowedIPs: []string{"127.0.0.2"}})
+	if err != nil {
+		rec.Infra(err.Error())
+		return
+	}
+	if err := srv.srv.Listen(); err != nil {
+		rec.Infra(err.Error())
+		return
+	}
+	defer func() { srv.srv.Stop(); srv.Close() }()
+	port := srv.srv.GetPort()
+	dial := func(src string) *vfTCPClient {
+		d := net.Dialer{LocalAddr: &net.TCPAddr{IP: net.ParseIP(src)}, Timeout: 10 * time.Second}
+		c, err := d.Dial("tcp", fmt.Sprintf("127.0.0.1:%d", port))
+		if err != nil {
+			return nil
+		}
+		return &vfTCPClient{c: c}
+	}
+	// more refused connections than there are slots
+	for i := 0; i < max+2; i++ {
+		if c := dial("127.0.0.1"); c != nil {
+			if a, _, to := c.null(uint32(i+1), 10*time.Second); a && !to {
+				rec.Violate("C17/refused-address-was-served", "", nil)
+			}
+			c.c.Close()
+		}
+	}
+	for d := time.Now().Add(10 * time.Second); time.Now().Before(d); {
+		if c, _ := vfConnCounts(srv.srv); c == 0 {
+			break
+		}
+		time.Sleep(time.Millisecond)
+	}
+	if c, tr := vfConnCounts(srv.srv); c != 0 || tr != 0 {
+		rec.Violate("C17/refused-connections-stay-counted", fmt.Sprintf("after %d connections refused by AllowedIPs and closed: connCount=%d tracked=%d", max+2, c, tr), nil)
+	}
+	// every slot is still available to allowed clients
+	var held []*vfTCPClient
+	answered := 0
+	for i := 0; i < max; i++ {
+		if c := dial("127.0.0.2"); c != nil {
+			held = append(held, c)
+			if a, _, _ := c.null(uint32(100+i), 20*time.Second); a {
+				answered++
+			}
+		}
+	}
+	if answered < max {
+		rec.Violate("C17/allowed-clients-refused-after-refused-connections", fmt.Sprintf("%d of %d allowed clients served (MaxConnections=%d)", answered, max, max), nil)
+	}
+	for _, c := range held {
+		c.c.Close()
+	}
+	rec.Eval(2*max + 2)
+	rec.Distinct(fmt.Sprintf("refused-by-address|max=%d|allowed-served=%d", max, answered))
+}
+
+// vfC17CloseInFlight: Close()/Unexport() while a request is still being served. After the
+// call returns nothing may be left: no handle, no cache entry.
+func vfC17CloseInFlight(rec *evid.Rec, ep int) {
+	how := []string{"Close", "Unexport"}[ep%2]
+	fs := refs.New()
+	fs.PlantFile("/target", []byte("x"), 0644, 0, 0)
+	n, err := New(fs, ExportOptions{AttrCacheTimeout: time.Hour, EnableDirCache: true})
+	if err != nil {
+		rec.Infra(err.Error())
+		return
+	}
+	vfQuiet(n)
+	if err := n.Export("/", 0); err != nil {
+		rec.Infra(err.Error())
+		return
+	}
+	n.exportServer.logger.SetOutput(io.Discard)
+	exp := n.exportServer
+	port := exp.GetPort()
+	conn, err := vfDialRM(port)
+	if err != nil {
+		rec.Inconclusive(1)
+		n.Close()
+		return
+	}
+	defer conn.c.Close()
+	raw, closed, err := conn.call(vfProgMount, 1, (&xdrw.W{}).Str("/").B)
+	if err != nil || closed {
+		rec.Inconclusive(1)
+		n.Close()
+		return
+	}
+	rep, _ := rfc.DecodeReply(raw)
+	m, _ := rfc.DecodeMount(1, rep.Body)
+	root := vfFH(m.FH)
+	parked, open := make(chan struct{}), make(chan struct{})
+	var once sync.Once
+	fs.SetHook(func(op *refs.Op, ph refs.Phase) error {
+		if ph == refs.Before && op.Name == "Lstat" && op.Path == "/target" {
+			first := false
+			once.Do(func() { first = true })
+			if first {
+				close(parked)
+				<-open
+			}
+		}
+		return nil
+	})
+	go conn.call(vfProgNFS, 3, xdrw.ArgDirop(root, "target")) // LOOKUP, parked inside the backend
+	select {
+	case <-parked:
+	case <-time.After(20 * time.Second):
+		rec.Inconclusive(1)
+		close(open)
+		n.Close()
+		return
+	}
+	done := make(chan struct{})
+	go func() {
+		defer close(done)
+		if how == "Close" {
+			n.Close()
+		} else {
+			n.Unexport()
+		}
+	}()
+	// release the request once the shutdown is under way
+	select {
+	case <-exp.ctx.Done():
+	case <-time.After(10 * time.Second):
+	}
+	for y := 0; y < 100; y++ {
+		runtime.Gosched()
+	}
+	close(open)
+	select {
+	case <-done:
+	case <-time.After(30 * time.Second):
+		rec.Inconclusive(1)
+		return
+	}
+	// let a request goroutine that outlives the shutdown call finish its bookkeeping
+	for d := time.Now().Add(3 * time.Second); time.Now().Before(d); {
+		if n.policyRWMu.TryLock() {
+			n.policyRWMu.Unlock()
+			break
+		}
+		runtime.Gosched()
+	}
+	rec.Eval(1)
+	if h, a, d := n.fileMap.Count(), n.attrCache.Size(), n.dirCache.Size(); h != 0 || a != 0 || d != 0 {
+		rec.Violate("C17/state-left-after-"+how+"-with-request-in-flight", fmt.Sprintf("a LOOKUP was being served when %s() was called; after it returned: handles=%d attr-cache=%d dir-cache=%d", how, h, a, d), nil)
+	}
+	rec.Distinct("shutdown-with-request-in-flight|" + how)
+	if how == "Unexport" {
+		n.Close()
+	}
 }
